@@ -6,17 +6,47 @@
    kind "frames"   ExceptionTrace._render_trace: every stack of up to MaxF frames, each under the ignored path or
                    not, at every verbosity, with and without an ignore pattern: no ignored frame is listed unless
                    the verbosity is debug; the raising frame is never listed (it is shown below the message).
+   kind "history"  several renders of one exception in one process with different ignore patterns ("none", the app
+                   directory, the lib directory) and verbosities: what a render lists depends on the frames, the pattern
+                   and the verbosity of THIS render only (HistoryFree) and obeys IgnoredOK / DebugShowsIgnored for its own
+                   pattern.  MemoByFile = TRUE models an implementation that remembers per file whether it is ignored
+                   (the decision of the first render that asked): TLC must then find HistoryP violated.
    The results are emitted and replayed on the real classes.                                                *)
 EXTENDS ErrorReport, Json, TLC
 
-CONSTANTS MaxN, MaxF, Kinds
+CONSTANTS MaxN, MaxF, Kinds, MaxRenders, MemoByFile
 
 VARIABLES inp, out, pc
 mvars == <<inp, out, pc>>
 
 Windows == {<<2, 2>>, <<4, 4>>}
 Masks == UNION {[1..n -> BOOLEAN] : n \in 1..MaxF}
-Both == {"snippet", "frames"}
+Both == {"snippet", "frames", "history"}
+OnlyHistory == {"history"}
+Dirs == {"app", "lib"}
+DirSeqs == UNION {[1..n -> Dirs] : n \in 2..3}
+RenderChoices == {[pat |-> p, verb |-> v] : p \in {"none", "app", "lib"}, v \in {1, 3}}
+RenderSeqs == UNION {[1..n -> RenderChoices] : n \in 2..MaxRenders}
+
+\* one render: frames = Seq([dir]); cache = [dir -> "?" | "yes" | "no"] (used by the memoising variant only)
+IgnNow(frames, pat) == [k \in 1..Len(frames) |-> [ign |-> frames[k].dir = pat]]
+Asks(r) == r.pat # "none" /\ r.verb < 3                                  \* the filter looks at the files
+Decide(cache, d, pat) == IF MemoByFile /\ cache[d] # "?" THEN cache[d] = "yes" ELSE d = pat
+CacheAfter(cache, frames, r) ==
+  IF ~Asks(r) THEN cache
+  ELSE [d \in Dirs |-> IF cache[d] = "?" /\ \E k \in 1..Len(frames) : frames[k].dir = d
+                       THEN (IF d = r.pat THEN "yes" ELSE "no") ELSE cache[d]]
+RenderListing(cache, frames, r) ==
+  LET now == IgnNow(frames, r.pat)
+      \* the frames the filter lets through: decided per file (directory), possibly from the memo
+      seen == [k \in 1..Len(frames) |-> [ign |-> IF Asks(r) THEN Decide(cache, frames[k].dir, r.pat) ELSE FALSE]]
+      kept == Listed(seen, Asks(r), r.verb)
+  IN [j \in 1..Len(kept) |-> [ix |-> kept[j].ix, ign |-> now[kept[j].ix].ign]]
+RECURSIVE HistoryFrom(_, _, _, _)
+HistoryFrom(cache, frames, renders, k) ==
+  IF k > Len(renders) THEN <<>>
+  ELSE <<RenderListing(cache, frames, renders[k])>> \o HistoryFrom(CacheAfter(cache, frames, renders[k]), frames, renders, k + 1)
+NoCache == [d \in Dirs |-> "?"]
 OnlySnippet == {"snippet"}
 OnlyFrames == {"frames"}
 
@@ -27,9 +57,13 @@ Init == /\ pc = "in" /\ out = <<>>
            \/ /\ "frames" \in Kinds
               /\ \E m \in Masks, verb \in 0..3, ig \in BOOLEAN :
                    inp = [kind |-> "frames", frames |-> [k \in 1..Len(m) |-> [ign |-> m[k]]], verb |-> verb, ignoring |-> ig]
+           \/ /\ "history" \in Kinds
+              /\ \E ds \in DirSeqs, rs \in RenderSeqs :
+                   inp = [kind |-> "history", frames |-> [k \in 1..Len(ds) |-> [dir |-> ds[k]]], renders |-> rs]
 Next == /\ pc = "in" /\ pc' = "done" /\ UNCHANGED inp
         /\ out' = IF inp.kind = "snippet" THEN SnippetRows(inp.n, inp.line, inp.before, inp.after)
-                  ELSE Listed(inp.frames, inp.ignoring, inp.verb)
+                  ELSE IF inp.kind = "frames" THEN Listed(inp.frames, inp.ignoring, inp.verb)
+                  ELSE HistoryFrom(NoCache, inp.frames, inp.renders, 1)
 Spec == Init /\ [][Next]_mvars
 
 Done == pc = "done"
@@ -44,5 +78,13 @@ FramesP == (Done /\ inp.kind = "frames") =>
                                    [listing |-> out])
               /\ \A k \in 1..Len(out) : out[k].ix < Len(inp.frames)            \* the raising frame is not listed
               /\ (inp.verb = 3 \/ ~inp.ignoring) => Len(out) = (IF inp.verb >= 1 THEN Len(inp.frames) - 1 ELSE 0)
+\* every render of a history: its own pattern decides, earlier renders do not matter
+HistoryP == (Done /\ inp.kind = "history") =>
+              \A i \in 1..Len(inp.renders) :
+                LET r == inp.renders[i]
+                    c == [ignoring |-> r.pat # "none", verb |-> r.verb, recursion |-> FALSE, frames |-> IgnNow(inp.frames, r.pat)]
+                IN /\ IgnoredOK(c, [listing |-> out[i]])
+                   /\ DebugShowsIgnored(c, [listing |-> out[i]])
+                   /\ out[i] = HistoryFrom(NoCache, inp.frames, <<r>>, 1)[1]                       \* HistoryFree
 Emit == Done => PrintT(ToJson([inp |-> inp, out |-> out]))
 =============================================================================
